@@ -61,6 +61,12 @@ inductive WCall
   | forSavePolicy
   deriving DecidableEq, Repr
 
+/-- what left the enforcer, in the order it left: calls to the adapter and notifications to the watcher (`St.ev`) -/
+inductive Ev
+  | adapter (c : ACall)
+  | watcher (w : WCall)
+  deriving DecidableEq, Repr
+
 /-- three rule lists, one per section -/
 structure Pol where
   p : List Rule := []
@@ -87,6 +93,8 @@ structure St where
   store : Pol := {}
   alog : List ACall := []
   wlog : List WCall := []
+  /-- adapter calls and notifications in one sequence (the order between the two logs) -/
+  ev : List Ev := []
   deriving DecidableEq, Repr, Inhabited
 
 inductive EErr
@@ -156,9 +164,10 @@ def applyACall (st : Pol) (cur : Pol) : ACall → Pol
     `if adapter and auto_save: adapter.call(...); if watcher and auto_notify_watcher: notify` -/
 def persist (cfg : Cfg) (s : St) (call : ACall) (specific : Option WCall) : St :=
   if cfg.hasAdapter && s.autoSave then
-    let s1 := { s with alog := s.alog ++ [call], store := applyACall s.store s.pol call }
+    let s1 := { s with alog := s.alog ++ [call], store := applyACall s.store s.pol call, ev := s.ev ++ [.adapter call] }
     if cfg.hasWatcher && s.autoNotify then
-      { s1 with wlog := s1.wlog ++ [match specific with | some w => w | none => .update] }
+      { s1 with wlog := s1.wlog ++ [match specific with | some w => w | none => .update],
+                ev := s1.ev ++ [.watcher (match specific with | some w => w | none => .update)] }
     else s1
   else s
 
@@ -280,12 +289,13 @@ def step (cfg : Cfg) (s : St) : Op → St × Except EErr Ret
     | .error e => ({ s with links := {} }, .error e)   -- managers were cleared; not reachable with well-sized rules
     | .ok l => ({ s with links := l }, .ok .unit)
   | .savePolicy =>
-    let s1 := { s with alog := s.alog ++ [.savePolicy], store := s.pol }
+    let s1 := { s with alog := s.alog ++ [.savePolicy], store := s.pol, ev := s.ev ++ [.adapter .savePolicy] }
     (if cfg.hasWatcher then
-        { s1 with wlog := s1.wlog ++ [if cfg.watcherEx then .forSavePolicy else .update] }
+        { s1 with wlog := s1.wlog ++ [if cfg.watcherEx then .forSavePolicy else .update],
+                  ev := s1.ev ++ [.watcher (if cfg.watcherEx then .forSavePolicy else .update)] }
       else s1, .ok .unit)
   | .loadPolicy failAfter =>
-    let s0 := { s with alog := s.alog ++ [.loadPolicy] }
+    let s0 := { s with alog := s.alog ++ [.loadPolicy], ev := s.ev ++ [.adapter .loadPolicy] }
     if failsAt failAfter (s.store.p.length + s.store.g.length + s.store.g2.length) then
       (s0, .error .adapterFailure)   -- `new_model` is discarded, nothing was touched
     else loadCore cfg s0
@@ -315,13 +325,15 @@ def updateFilteredStep (cfg : Cfg) (s : St) (news : List Rule) (idx : Nat) (vals
         match Policy.getFiltered s.store.p idx vals with
         | .ok oldSt =>
           let c := ACall.updateFiltered news idx vals
-          ({ s with alog := s.alog ++ [c], store := applyACall s.store s.pol c }, oldSt)
-        | .error _ => ({ s with alog := s.alog ++ [ACall.updateFiltered news idx vals] }, oldMem)
+          ({ s with alog := s.alog ++ [c], store := applyACall s.store s.pol c, ev := s.ev ++ [.adapter c] }, oldSt)
+        | .error _ => ({ s with alog := s.alog ++ [ACall.updateFiltered news idx vals],
+                                 ev := s.ev ++ [.adapter (ACall.updateFiltered news idx vals)] }, oldMem)
       else (s, oldMem)
     let (l2, changed) := Policy.updateFilteredWith s1.pol.p old news
     let s2 := { s1 with pol := s1.pol.set .p l2 }
     if !changed then (s2, .ok (.bool false))
-    else if cfg.hasWatcher && s2.autoNotify then ({ s2 with wlog := s2.wlog ++ [.update] }, .ok (.bool true))
+    else if cfg.hasWatcher && s2.autoNotify then
+      ({ s2 with wlog := s2.wlog ++ [.update], ev := s2.ev ++ [.watcher .update] }, .ok (.bool true))
     else (s2, .ok (.bool true))
 
 /-- management calls including the filtered update -/
